@@ -179,7 +179,7 @@ fn chain_rule(rng: &mut Rng) -> RuleAst {
 /// keys with an index on a non-first segment (`u.r[1]`), whose inner names do not occur at the
 /// top level of the rule
 fn indexed_rule(rng: &mut Rng) -> RuleAst {
-    let keys = ["u.r[1]", "u.r[0]", "p.q[2]", "u.s[0].t", "u.v.w[1]", "p.q[0]"];
+    let keys = ["u.r[1]", "u.r[0]", "p.q[2]", "u.s[0].t", "u.v.w[1]", "p.q[0]", "donn\u{e9}es[0]", "u.entr\u{e9}es[1]", "na\u{ef}ve[2].t", "\u{e9}t\u{e9}[0]"];
     let n = 1 + rng.below(3);
     let mut es: Entries = vec![];
     for _ in 0..n {
@@ -266,6 +266,20 @@ pub fn run(ctx: &Ctx) -> i32 {
                     }
                     with_junk.set(k, gen::junk_scalar(&mut rng));
                     altered.set(k, DVal::s("foo"));
+                }
+                // a field named like YAML's merge key, holding values made for the rule's own
+                // predicates: it is a field like any other, and the rule does not name it
+                if rng.chance(60) && !top.contains("<<") {
+                    let mut inner: Vec<(String, DVal)> = vec![];
+                    for l in leaves.iter().filter(|l| l.containers.is_empty() && !l.field.contains('.') && !l.field.contains('[')) {
+                        if rng.chance(60) && !inner.iter().any(|(k, _)| *k == l.field) {
+                            inner.push((l.field.clone(), gen::value_for(&mut rng, l)));
+                        }
+                    }
+                    let merged = if rng.chance(30) { DVal::Arr(vec![DVal::Obj(inner.clone()), DVal::Obj(inner)]) } else { DVal::Obj(inner) };
+                    with_junk.set("<<", merged);
+                    altered.set("<<", DVal::obj(vec![("a", DVal::s("foo")), ("b", DVal::UInt(1))]));
+                    rep.count("merge_key_junk");
                 }
                 // junk inside nested objects too
                 if let DVal::Obj(es) = &mut with_junk {
